@@ -184,7 +184,7 @@ def check_events(case):
                         fns[i] = None  # the harness keeps no reference to the listener or its bound method
                         import gc
 
-                        gc.collect()
+                        gc.collect(0)  # (the young generation is enough for an object created a moment ago; a full pass grows with the heap)
             for i, cb in enumerate(cbs):
                 rm = cb.get("rm")
                 if rm and uids[i] is not None and rm["at"] % (n + 1) == pos and pos > cb["reg_at"] % (n + 1):
